@@ -111,6 +111,68 @@ def rule_lexer(ctx):
     _lexer_slots(ctx, R, tree, rel)
     _lexer_cache_key(ctx, R, tree, rel)
     _trailing_newline(ctx, R, tree, rel)
+    _string_literal_order(ctx, R, tree, rel)
+
+
+def _string_literal_order(ctx, R, tree, rel):
+    """The value of a string literal is the *source text* of the literal with its line breaks normalised, then unescaped.  Normalising
+    after unescaping rewrites the characters a template author spelled as escapes on purpose (`"\\r\\n"` becomes the environment's
+    newline sequence), which no stock Jinja2 does - and it is invisible to every built-in template.  Decided as a data-flow order over
+    Lexer.wrap and the private methods it calls: the operand of the unicode-escape decoding derives from the result of
+    _normalize_newlines, never the other way round."""
+    cls = next((c for c in ast.walk(tree) if isinstance(c, ast.ClassDef) and c.name == "Lexer"), None)
+    if cls is None:
+        raise AnalysisError("anchor missing: class Lexer")
+    methods = {m.name: m for m in cls.body if isinstance(m, ast.FunctionDef)}
+    wrap = methods.get("wrap")
+    if wrap is None:
+        raise AnalysisError("anchor missing: Lexer.wrap")
+
+    def flat(e, fn, depth=0):
+        """expression with locals substituted and calls of private methods replaced by their (single) returned expression"""
+        e = pyfront.subst_locals(fn, e)
+
+        class Inl(ast.NodeTransformer):
+            def visit_Call(self, node):
+                self.generic_visit(node)
+                if depth < 3 and isinstance(node.func, ast.Attribute) and isinstance(node.func.value, ast.Name) and node.func.value.id == "self" \
+                        and node.func.attr in methods and node.func.attr.startswith("_") and node.func.attr != "_normalize_newlines":
+                    h = methods[node.func.attr]
+                    rets = [r for r in ast.walk(h) if isinstance(r, ast.Return) and r.value is not None]
+                    if len(rets) == 1:
+                        hp = [a.arg for a in h.args.args][1:]
+                        body = flat(rets[0].value, h, depth + 1)
+
+                        class Bind(ast.NodeTransformer):
+                            def visit_Name(self, n_):
+                                return dict(zip(hp, node.args)).get(n_.id, n_) if isinstance(n_.ctx, ast.Load) else n_
+                        import copy
+                        return Bind().visit(copy.deepcopy(body))
+                return node
+        import copy
+        return Inl().visit(copy.deepcopy(e))
+
+    n = 0
+    for st in ast.walk(wrap):
+        if not (isinstance(st, ast.Assign) and any(isinstance(c, ast.Constant) and c.value == "unicode-escape" for c in ast.walk(st.value))
+                or isinstance(st, ast.Assign) and isinstance(st.value, ast.Call) and isinstance(st.value.func, ast.Attribute)
+                and isinstance(st.value.func.value, ast.Name) and st.value.func.value.id == "self" and st.value.func.attr in methods
+                and any(isinstance(c, ast.Constant) and c.value == "unicode-escape" for c in ast.walk(methods[st.value.func.attr]))):
+            continue
+        e = flat(st.value, wrap)
+        dec = [c for c in ast.walk(e) if isinstance(c, ast.Call) and isinstance(c.func, ast.Attribute) and c.func.attr == "decode"
+               and any(isinstance(a, ast.Constant) and a.value == "unicode-escape" for a in c.args)]
+        norm = [c for c in ast.walk(e) if isinstance(c, ast.Call) and isinstance(c.func, ast.Attribute) and c.func.attr == "_normalize_newlines"]
+        if not dec:
+            continue
+        n += 1
+        ok = bool(norm) and all(any(x is nm for x in ast.walk(d.func.value)) for d in dec for nm in norm) and \
+            not any(any(x is d for x in ast.walk(nm)) for d in dec for nm in norm)
+        ctx.ob(R, rel, "Lexer.wrap :: a string literal is unescaped after its source line breaks were normalised", ok,
+               "" if ok else f"`{ast.unparse(e)[:120]}`: the escapes are resolved first, so an escaped \\r / \\n written by the template author is rewritten to the "
+               "environment's newline sequence", st.lineno)
+    if n == 0:
+        raise AnalysisError("anchor missing: the unicode-escape decoding of string literals in Lexer.wrap")
 
 
 def _lexer_cache_key(ctx, R, tree, rel):
@@ -359,6 +421,53 @@ def _prefix_args(local_fns, call, tok, tokvals, fold, depth=0):
     return out
 
 
+def _canon_marker(e):
+    """one spelling for `the begin token carries the auto-indent marker`:  t.value.endswith('*')  for
+    t.value[-1:] == '*',  t.value and <that>,  bool(t.value) and <that>,  t.value and t.value[-1] == '*'"""
+    def tokval(x):
+        return isinstance(x, ast.Attribute) and x.attr == "value" and isinstance(x.value, ast.Name)
+
+    def star(x):
+        return isinstance(x, ast.Constant) and x.value == "*"
+
+    class T(ast.NodeTransformer):
+        def visit_Compare(self, node):
+            self.generic_visit(node)
+            if len(node.ops) == 1 and isinstance(node.ops[0], ast.Eq):
+                a, b = node.left, node.comparators[0]
+                if star(a):
+                    a, b = b, a
+                if star(b) and isinstance(a, ast.Subscript) and tokval(a.value) and ast.unparse(a.slice) in ("-1:", "-1"):
+                    r = ast.Call(func=ast.Attribute(value=a.value, attr="endswith", ctx=ast.Load()), args=[ast.Constant("*")], keywords=[])
+                    r._needs_nonempty = ast.unparse(a.slice) == "-1"
+                    return r
+            return node
+
+        def visit_BoolOp(self, node):
+            self.generic_visit(node)
+            if isinstance(node.op, ast.And) and len(node.values) == 2:
+                a, b = node.values
+                if isinstance(a, ast.Call) and isinstance(a.func, ast.Name) and a.func.id == "bool" and len(a.args) == 1:
+                    a = a.args[0]
+                if tokval(a) and isinstance(b, ast.Call) and isinstance(b.func, ast.Attribute) and b.func.attr == "endswith" and b.args and star(b.args[0]) \
+                        and ast.unparse(b.func.value) == ast.unparse(a):
+                    b._needs_nonempty = False
+                    return b
+            return node
+    import copy
+    out = T().visit(copy.deepcopy(e))
+    if any(getattr(n, "_needs_nonempty", False) for n in ast.walk(out)):
+        return e      # t.value[-1] == '*' without the emptiness guard raises on an empty value: not the same test
+    return ast.fix_missing_locations(out)
+
+
+def _canon_marker_text(txt: str) -> str:
+    try:
+        return ast.unparse(_canon_marker(ast.parse(txt, mode="eval").body))
+    except SyntaxError:
+        return txt
+
+
 def rule_parser(ctx):
     R = "R-C19-PARSER"
     ctx.rule(
@@ -375,6 +484,48 @@ def rule_parser(ctx):
     if sub is None:
         raise AnalysisError("anchor missing: Parser.subparse")
     local_fns = {f_.name: f_ for f_ in ast.walk(sub) if isinstance(f_, ast.FunctionDef) and f_ is not sub}
+    # private methods of the parser class that subparse calls for its marker handling (`self._autoindent(rv, token)`) are the same thing
+    # as closures of subparse: they are taken in with the receiver dropped, provided nothing but subparse (or one of them) refers to them
+    owner = next((c_ for c_ in ast.walk(tree) if isinstance(c_, ast.ClassDef) and any(m_ is sub for m_ in c_.body)), None)
+    helper_methods = {}
+    if owner is not None:
+        methods = {m_.name: m_ for m_ in owner.body if isinstance(m_, ast.FunctionDef)}
+
+        def marker_related(m_):
+            return any(isinstance(x, ast.Constant) and x.value in ("lineprefix", "*") for x in ast.walk(m_))
+        work = [sub]
+        while work:
+            cur = work.pop()
+            for c_ in ast.walk(cur):
+                if isinstance(c_, ast.Call) and isinstance(c_.func, ast.Attribute) and isinstance(c_.func.value, ast.Name) and c_.func.value.id in ("self", "cls", owner.name) \
+                        and c_.func.attr.startswith("_") and c_.func.attr in methods and c_.func.attr not in helper_methods and c_.func.attr not in local_fns \
+                        and marker_related(methods[c_.func.attr]):
+                    helper_methods[c_.func.attr] = methods[c_.func.attr]
+                    work.append(methods[c_.func.attr])
+        # who may refer to them
+        for hn, hm in list(helper_methods.items()):
+            users = [n_ for n_ in ast.walk(tree) if isinstance(n_, ast.Attribute) and n_.attr == hn]
+            allowed = [sub] + list(helper_methods.values())
+            if not all(any(any(x is u for x in ast.walk(a_)) for a_ in allowed) for u in users):
+                del helper_methods[hn]
+        import copy as _copy
+        for hn, hm in helper_methods.items():
+            static = any(ast.unparse(d_) in ("staticmethod",) for d_ in hm.decorator_list)
+            fn_ = _copy.deepcopy(hm)
+            if not static and fn_.args.args:
+                fn_.args.args = fn_.args.args[1:]
+            local_fns[hn] = fn_
+
+        class _Unmethod(ast.NodeTransformer):
+            def visit_Call(self, node):
+                self.generic_visit(node)
+                if isinstance(node.func, ast.Attribute) and isinstance(node.func.value, ast.Name) and node.func.value.id in ("self", "cls", owner.name) \
+                        and node.func.attr in helper_methods:
+                    node.func = ast.copy_location(ast.Name(id=node.func.attr, ctx=ast.Load()), node.func)
+                return node
+        _Unmethod().visit(sub)
+        for fn_ in local_fns.values():
+            _Unmethod().visit(fn_)
 
     def own_nodes(fn):
         """nodes of fn that are not inside a nested def"""
@@ -402,7 +553,7 @@ def rule_parser(ctx):
     for n in ast.walk(tree):
         if isinstance(n, ast.Constant) and n.value == "lineprefix":
             n_lp += 1
-            inside = any(x is n for x in ast.walk(sub))
+            inside = any(x is n for x in ast.walk(sub)) or any(any(x is n for x in ast.walk(hm_)) for hm_ in helper_methods.values())
             ctx.ob(R, rel, "the lineprefix filter node is built by subparse only", inside,
                    "" if inside else "lineprefix filter nodes are created outside subparse's marker handling", n.lineno)
     if n_lp == 0:
@@ -438,7 +589,7 @@ def rule_parser(ctx):
                 if st.value is None or (isinstance(st.value, ast.Constant) and st.value.value is None):
                     has_none = True
                     continue
-                terms = pyfront.guard_terms([(pyfront.subst_locals(fn, t_), p_) for t_, p_ in g])
+                terms = pyfront.guard_terms([(_canon_marker(pyfront.subst_locals(fn, t_)), p_) for t_, p_ in g])
                 if not any(e == f"{q}.value.endswith('*')" and pol for e, pol in terms):
                     return None
                 vals.append(ast.unparse(fold(pyfront.subst_locals(fn, st.value))).replace(q, "TOK"))
@@ -446,7 +597,7 @@ def rule_parser(ctx):
     prefix_helpers = {n_: prefix_helper(f_) for n_, f_ in local_fns.items()}
     prefix_helpers = {k: v for k, v in prefix_helpers.items() if v}
     marker_fns = {f_.name for f_ in local_fns.values() if len(f_.args.args) == 1 and f_.name not in prefix_helpers and any(
-        isinstance(r, ast.Return) and r.value is not None and f"{f_.args.args[0].arg}.value.endswith('*')" in ast.unparse(r.value) for r in ast.walk(f_))}
+        isinstance(r, ast.Return) and r.value is not None and f"{f_.args.args[0].arg}.value.endswith('*')" in ast.unparse(_canon_marker(r.value)) for r in ast.walk(f_))}
 
     prefix_exprs = set()    # what reaches nodes.Const(<prefix>), token spelled TOK
     n_sinks = 0
@@ -454,7 +605,7 @@ def rule_parser(ctx):
         tok, body_ = branch(kind)
 
         def marker_of(terms, pvars):
-            for e, pol in terms:
+            for e, pol in [(_canon_marker_text(e_), p_) for e_, p_ in terms]:
                 if e == f"{tok}.value.endswith('*')" or any(e == f"{mf}({tok})" for mf in marker_fns):
                     return pol
                 if e.replace(" ", "") == f"{tok}.valueand{tok}.value.endswith('*')":
@@ -577,17 +728,46 @@ def rule_lineprefix(ctx):
     if len(dl) != 1:
         raise AnalysisError("anchor missing: do_lineprefix")
     f = dl[0]
-    splits = [c for c in ast.walk(f) if isinstance(c, ast.Call) and isinstance(c.func, ast.Attribute) and c.func.attr in ("splitlines", "split")]
+    mod_fns = {n.name: n for n in ftree.body if isinstance(n, ast.FunctionDef)}
+    # the unit: do_lineprefix and the module-private helpers it calls (a helper shared with a stock filter is judged here for what it
+    # does on behalf of do_lineprefix); parameters of a helper are traced back to the arguments of the call
+    unit = [(f, {})]          # (function, parameter -> argument expression at the call in the caller, caller index)
+    seen_h = {f.name}
+    k = 0
+    while k < len(unit):
+        fn_, _ = unit[k]
+        for c in ast.walk(fn_):
+            if isinstance(c, ast.Call) and isinstance(c.func, ast.Name) and c.func.id.startswith("_") and c.func.id in mod_fns and c.func.id not in seen_h:
+                h = mod_fns[c.func.id]
+                seen_h.add(h.name)
+                hp = [a.arg for a in h.args.args]
+                bind = {p_: a_ for p_, a_ in zip(hp, c.args)}
+                if h.args.vararg is not None:
+                    bind[h.args.vararg.arg] = ast.Tuple(elts=list(c.args[len(hp):]), ctx=ast.Load())
+                unit.append((h, {"bind": bind, "caller": k}))
+        k += 1
+
+    def origin(idx, name, depth=0):
+        """the expression in do_lineprefix a helper's parameter stands for (name itself when it is not a parameter)"""
+        fn_, info = unit[idx]
+        if not info or name not in info["bind"] or depth > 4:
+            return idx, name
+        a = info["bind"][name]
+        if isinstance(a, ast.Name):
+            return origin(info["caller"], a.id, depth + 1)
+        return info["caller"], ast.unparse(a)
+
+    splits = [c for fn_, _ in unit for c in ast.walk(fn_) if isinstance(c, ast.Call) and isinstance(c.func, ast.Attribute) and c.func.attr in ("splitlines", "split")]
     lossy = []
     for c in splits:
         if c.func.attr == "splitlines":
             keep = (c.args and isinstance(c.args[0], ast.Constant) and bool(c.args[0].value)) or any(
-                k.arg == "keepends" and isinstance(k.value, ast.Constant) and bool(k.value.value) for k in c.keywords)
+                k_.arg == "keepends" and isinstance(k_.value, ast.Constant) and bool(k_.value.value) for k_ in c.keywords)
             if not keep:
                 lossy.append(ast.unparse(c))
         else:
             lossy.append(ast.unparse(c))
-    joins = [c for c in ast.walk(f) if isinstance(c, ast.Call) and isinstance(c.func, ast.Attribute) and c.func.attr == "join"]
+    joins = [(idx, c) for idx, (fn_, _) in enumerate(unit) for c in ast.walk(fn_) if isinstance(c, ast.Call) and isinstance(c.func, ast.Attribute) and c.func.attr == "join"]
     ok = not (lossy and joins)
     ctx.ob(R, ctx.rel(fpath), "do_lineprefix :: line terminators are preserved", ok,
            "" if ok else f"{lossy[0]} discards the terminators and the lines are re-joined with a fixed newline: "
@@ -595,26 +775,68 @@ def rule_lineprefix(ctx):
     # a Markup input gives a Markup result (stock filters keep safe strings safe): the string that joins the lines is Markup
     # whenever the input is - str.join of Markup pieces returns a plain str, which autoescaping then escapes a second time
     sparam = f.args.args[0].arg
-    markup_names = set()
+    pparam = f.args.args[1].arg
+
+    def like_helper(h):
+        """h(s, *xs) returns its other arguments as Markup when s is Markup and unchanged otherwise"""
+        if not h.args.args:
+            return False
+        p0 = h.args.args[0].arg
+        mk, plain = False, False
+        for st, gd in pyfront.walk_guarded(h.body, ()):
+            if isinstance(st, ast.Return) and st.value is not None:
+                terms = pyfront.guard_terms(gd)
+                if any(e == f"isinstance({p0}, Markup)" and pol for e, pol in terms):
+                    v = st.value
+                    elts = v.elts if isinstance(v, ast.Tuple) else [v]
+                    gen = [g_ for g_ in ast.walk(v) if isinstance(g_, (ast.GeneratorExp, ast.ListComp))]
+                    mk = all(isinstance(e_, ast.Call) and ast.unparse(e_.func) == "Markup" for e_ in elts) or \
+                        (len(gen) == 1 and isinstance(gen[0].elt, ast.Call) and ast.unparse(gen[0].elt.func) == "Markup" and not gen[0].generators[0].ifs)
+                else:
+                    plain = True
+        return mk and plain
+
+    markup_names = set()          # names of do_lineprefix that are Markup whenever the input is
+    prefix_names = {pparam}       # ... that denote the prefix
     for st, gd in pyfront.walk_guarded(f.body, ()):
-        if isinstance(st, ast.Assign) and any(e == f"isinstance({sparam}, Markup)" and pol for e, pol in pyfront.guard_terms(gd)):
-            tg, vals = st.targets[0], st.value
+        if not isinstance(st, ast.Assign):
+            continue
+        tg, vals = st.targets[0], st.value
+        if any(e == f"isinstance({sparam}, Markup)" and pol for e, pol in pyfront.guard_terms(gd)):
             pairs = list(zip(tg.elts, vals.elts)) if isinstance(tg, ast.Tuple) and isinstance(vals, ast.Tuple) else [(tg, vals)]
             for t_, v_ in pairs:
                 if isinstance(t_, ast.Name) and isinstance(v_, ast.Call) and ast.unparse(v_.func) == "Markup":
                     markup_names.add(t_.id)
-    for c in joins:
+        elif isinstance(vals, ast.Call) and isinstance(vals.func, ast.Name) and vals.func.id in mod_fns and like_helper(mod_fns[vals.func.id]) \
+                and vals.args and ast.unparse(vals.args[0]) == sparam:
+            tgs = tg.elts if isinstance(tg, ast.Tuple) else [tg]
+            for t_, a_ in zip(tgs, vals.args[1:]):
+                if isinstance(t_, ast.Name):
+                    markup_names.add(t_.id)
+                    if isinstance(a_, ast.Name) and a_.id in prefix_names:
+                        prefix_names.add(t_.id)
+    for idx, c in joins:
         recv = c.func.value
-        ok = (isinstance(recv, ast.Name) and recv.id in markup_names) or (isinstance(recv, ast.Call) and ast.unparse(recv.func) in ("Markup", f"type({sparam})"))
-        ctx.ob(R, ctx.rel(fpath), "do_lineprefix :: a safe (Markup) value stays safe: the joining newline is Markup when the input is", ok,
-               "" if ok else f"lines are joined with `{ast.unparse(recv)}`: for a Markup input the result is a plain str, and `{{{{* macro() }}}}` in an autoescaped "
+        okj = False
+        if isinstance(recv, ast.Name):
+            oi, on = origin(idx, recv.id)
+            okj = oi == 0 and on in markup_names
+        elif isinstance(recv, ast.Call) and ast.unparse(recv.func) in ("Markup", f"type({sparam})"):
+            okj = True
+        ctx.ob(R, ctx.rel(fpath), "do_lineprefix :: a safe (Markup) value stays safe: the joining newline is Markup when the input is", okj,
+               "" if okj else f"lines are joined with `{ast.unparse(recv)}`: for a Markup input the result is a plain str, and `{{{{* macro() }}}}` in an autoescaped "
                "template is escaped twice", c.lineno)
     # empty lines are not prefixed (documented): every `prefix + <line>` is evaluated only where the line is non-empty
-    pparam = f.args.args[1].arg
-    pm = pyfront.parent_map(f)
-    adds = [n for n in ast.walk(f) if isinstance(n, ast.BinOp) and isinstance(n.op, ast.Add) and isinstance(n.left, ast.Name) and n.left.id == pparam and isinstance(n.right, ast.Name)]
+    adds = []
+    for idx, (fn_, _) in enumerate(unit):
+        for n in ast.walk(fn_):
+            if isinstance(n, ast.BinOp) and isinstance(n.op, ast.Add) and isinstance(n.left, ast.Name) and isinstance(n.right, ast.Name):
+                oi, on = origin(idx, n.left.id)
+                if oi == 0 and on in prefix_names:
+                    adds.append((fn_, n))
     ok = bool(adds)
-    for a in adds:
+    for fn_, a in adds:
+        pm = pyfront.parent_map(fn_)
         line = a.right.id
         par = pm.get(id(a))
         in_ifexp = isinstance(par, ast.IfExp) and par.body is a and ast.unparse(par.test) == line and ast.unparse(par.orelse) == line
@@ -632,6 +854,17 @@ def rule_lineprefix(ctx):
             guarded = any((e == line and pol) or (e == f"not {line}" and not pol) or (e == f"len({line}) == 0" and not pol) for e, pol in terms)
         ok = ok and (in_ifexp or guarded)
     ctx.ob(R, ctx.rel(fpath), "do_lineprefix :: empty lines are left without prefix", ok, "", f.lineno)
+    # confinement: the filter is Nunavut's addition.  It is reachable only through the filter table, under the one name that only the
+    # marker path of the parser emits (R-C19-PARSER); a stock filter that calls it runs Nunavut's code for templates without any marker
+    refs = []
+    for fn_ in [n for n in ast.walk(ftree) if isinstance(n, ast.FunctionDef)]:
+        for n in ast.walk(fn_):
+            if isinstance(n, ast.Name) and n.id == "do_lineprefix" and isinstance(n.ctx, ast.Load):
+                refs.append((fn_.name, n.lineno))
+    ok = not refs
+    ctx.ob(R, ctx.rel(fpath), "do_lineprefix :: reachable only through the filter table entry 'lineprefix'", ok,
+           "" if ok else f"called from {sorted({r_[0] for r_ in refs})}: a stock filter now runs the auto-indent filter for templates that carry no marker "
+           "(do_lineprefix re-splits its input and drops the final line terminator)", refs[0][1] if refs else f.lineno)
 
 
 def rule_ext(ctx, px):
